@@ -48,6 +48,19 @@ CLAIMED = {
         "note": "Trusted: Python csv as RFC-4180 codec, my IANA-TSV codec, vlib/model_num.infer for the exception sub-check. Verbs outside the pool are not covered.",
         "design_ref": "DESIGN.md section 4 C03",
     },
+    "C01": {
+        "level": "exploration",
+        "technique": "property-based testing: Hypothesis-generated record streams per format domain; round-trip, idempotence and differential oracles against independent Python CSV/TSV/JSON codecs",
+        "text": ("For 13 formats (csv, tsv, csvlite, tsvlite, json, jsonl, yaml, dkvp, dkvpx, nidx, xtab, pprint incl. --barred/--right, markdown) x option "
+                 "variants (quote-all, custom/multi-char/named separators, implicit header + headerless output, --ors crlf, BOM, --lazy-quotes, jvstack/jlistwrap/"
+                 "jvquoteall, xvright, records-per-batch 1/2) Hypothesis builds record streams inside the format's documented domain from hostile atoms and "
+                 "checks five oracles per case: independent writer -> Miller reader, Miller writer -> Miller reader, Miller writer -> independent strict reader "
+                 "(csv/tsv/json/jsonl), byte idempotence of `mlr --fmt cat` on its own output, and CRLF / missing-final-newline re-termination."),
+        "note": ("Trusted: Python csv/json, my TSV codec, the per-format Domain table in props/c01.py (derived from file-formats.md; each narrowing is listed in "
+                 "DESIGN.md changelog). YAML has no independent parser offline (Miller-to-Miller only). Known findings (CRLF inside quoted CSV/DKVPX field, YAML key "
+                 "order, markdown pipe un-escaping) are matched by exact predicates and still counted; other faults on those inputs are still reported."),
+        "design_ref": "DESIGN.md section 4 C01",
+    },
 }
 
 NOT_YET = "check not built yet in this session (see DESIGN.md section 8 build order); will be claimed when its sub-checks run"
